@@ -778,7 +778,7 @@ def run(ctx):
         rec["name"] = name
         recs.append(rec)
     rng = ctx.rng("hist")
-    n_hist = ctx.pick(450, 6000)
+    n_hist = ctx.pick(450, 4000)
     n_random = ctx.pick(12, 40)
     for h in range(n_hist):
         n_rand = rng.randint(max(1, n_random // 3), n_random)
